@@ -164,6 +164,35 @@ def run_requestor_case(L, P, lengths):
         raise Violation('C10:exception:%s' % lib_frame(exc), 'requestor (max %d, peer %d) raised %r' % (L, P, exc), case)
 
 
+def run_provider_read_sizes(ctx):
+    """'Remain able to send/receive' also concerns the provider underneath: a provider created with the locally
+    configured maximum (incl. 0 = no limit and the smallest values) must carry a conversation exactly like one
+    created with the default (the configured value is what it passes to recv())."""
+    from .. import convs, simnet
+    from .c03 import observe_script
+    from .c13 import full_script
+    for name in ('acc-store-release', 'req-echo-release'):
+        role, steps = convs.corpus()[name]
+        base = None
+        for L in [65536] + GRID:
+            sim = simnet.run_scenario(role, full_script(steps), max_pdu=L)
+            obs = {'outcome': sim.outcome[0], 'inds': [convs.describe_ind(i) for i in sim.indications()], 'wire': sim.wire(),
+                   'final': sim.final()['state']}
+            case = {'role': 'provider', 'conv': name, 'L': L}
+            if base is None:
+                base = obs
+                continue
+            ctx.case(('provider', name, L), True, labels=['provider-read-size', 'own-unlimited' if L == 0 else 'own-limited'],
+                     sample={'conversation': name, 'provider_max_pdu_length': L})
+            from ..pdugen import first_diff
+            if obs['outcome'] != base['outcome'] or first_diff(base['inds'], obs['inds']) or obs['wire'] != base['wire'] \
+                    or obs['final'] != base['final']:
+                ctx.fail('C10:provider-cannot-receive', 'a provider configured with maximum PDU length %d cannot carry the '
+                         'conversation %s: %d indications (expected %d), %d bytes sent (expected %d), outcome %s'
+                         % (L, name, len(obs['inds']), len(base['inds']), len(obs['wire']), len(base['wire']), obs['outcome']),
+                         case)
+
+
 def run_pairs(ctx, job):
     warnings.simplefilter('ignore')
     for (L, P) in job['pairs']:
@@ -206,13 +235,22 @@ def run(ctx):
                 % (len(GRID), len(GRID), CAP))
     ctx.assumptions = ['send limit = peer-announced value, 0 = unlimited; the implementation may tighten it, never '
                        'loosen it', 'announced value A must satisfy: own limit L != 0  =>  0 < A <= L',
-                       'values 1..6 (cannot carry a payload byte) are outside the domain']
+                       'values 1..6 (cannot carry a payload byte) are outside the domain',
+                       'the provider is created with the configured maximum, which is the size it passes to recv(): checked on the simulated transport']
     pairs = [(L, P) for L in GRID for P in GRID]
     parallel(ctx, run_pairs, [{'pairs': pairs[i::16]} for i in range(16)])
+    run_provider_read_sizes(ctx)
     run_random(ctx, 8000 if ctx.thorough else 150)
 
 
 def replay(case):
     warnings.simplefilter('ignore')
+    if case['role'] == 'provider':
+        from ..common import Ctx
+        sub = Ctx('C10', 'quick', 1)
+        run_provider_read_sizes(sub)
+        for key, ent in sorted(sub.failures.items()):
+            raise Violation(key, ent['what'], ent['case'])
+        return
     fn = run_acceptor_case if case['role'] == 'acceptor' else run_requestor_case
     fn(case['L'], case['P'], case['lengths'])
